@@ -338,6 +338,63 @@ pub fn lr_parse(input: &str, opts: RunOpts) -> Result<Node, PErr> {
     }
 }
 
+/// One result of a parser session: `Err(panic)` ends the session.
+pub type SessionItem<T> = Result<Result<T, PErr>, crate::compile::PanicInfo>;
+
+/// Parse every input, in order, with ONE LR parser instance (as a user who keeps a parser
+/// around does). The step budget is reset before every parse; a panic ends the session.
+pub fn lr_parse_session(inputs: &[&str], opts: RunOpts, budget: u64) -> Vec<SessionItem<Node>> {
+    let has_layout = with_dump(|d| d.layout_state.is_some());
+    let lexer: StringLexer<LCtx, St, TK, Rec, NREC> =
+        StringLexer::new(opts.skip_ws && !has_layout, &RECS);
+    let p: LRParser<LCtx, St, PK, TK, NTK, Def, _, TreeBuilder<str, PK, TK>, str> =
+        LRParser::new(&DEF, St(0), opts.partial, has_layout, lexer, TreeBuilder::new());
+    let mut out = vec![];
+    for input in inputs {
+        reset_steps(budget);
+        let r = crate::compile::guarded(|| match p.parse(input) {
+            Ok(t) => Ok(copy_tree(input, &t)),
+            Err(e) => Err(conv_err(e)),
+        });
+        let stop = r.is_err();
+        out.push(r);
+        if stop {
+            break;
+        }
+    }
+    out
+}
+
+/// Same for the GLR parser: (number of solutions, first tree) when `inspect` is set; without it
+/// the forest is not traversed at all ((0, None); forests of cyclic grammars cannot be counted).
+pub fn glr_parse_session(inputs: &[&str], opts: RunOpts, budget: u64, inspect: bool) -> Vec<SessionItem<(usize, Option<Node>)>> {
+    let has_layout = with_dump(|d| d.layout_state.is_some());
+    let lexer: StringLexer<GCtx, St, TK, Rec, NREC> =
+        StringLexer::new(opts.skip_ws && !has_layout, &RECS);
+    let p: GlrParser<St, _, PK, TK, NTK, Def, str, TreeBuilder<str, PK, TK>> =
+        GlrParser::new(&DEF, opts.partial, has_layout, lexer);
+    let mut out = vec![];
+    for input in inputs {
+        reset_steps(budget);
+        let r = crate::compile::guarded(|| match p.parse(input) {
+            Ok(f) => {
+                if inspect {
+                    Ok((f.solutions(), f.get_first_tree().map(|t| build_tree(input, &t))))
+                } else {
+                    Ok((0, None))
+                }
+            }
+            Err(e) => Err(conv_err(e)),
+        });
+        let stop = r.is_err();
+        out.push(r);
+        if stop {
+            break;
+        }
+    }
+    out
+}
+
 pub struct GlrOut {
     pub solutions: usize,
     /// trees obtained through get_tree(i).build(TreeBuilder), i < min(solutions, cap)
